@@ -10,8 +10,10 @@ def run(ctx):
     t = 1 if ctx.thorough else 0
     triples = build.ALL_TRIPLES if t else QUICK_TRIPLES
     jobs = []
-    for be in ("asm", "c64", "c32"):
-        for tr in triples:
+    # the direct-XOR and generic core back ends select their own branches of the state conversions (masked state <-> plain state): every (key shares, data shares) pair there too
+    pairs = [(k, d, k) for k in (2, 3, 4) for d in range(1, k + 1)]
+    for be in ("asm", "c64", "c32", "dxor", "generic"):
+        for tr in (triples if (t or be in ("asm", "c64", "c32")) else pairs):
             name = "%s-k%dd%dm%d" % ((be,) + tr)
             try:
                 lib = build.build_lib(be, tr, omit=("ascon-trng-mixer.c",), opt="-O2")
